@@ -96,8 +96,12 @@ def header(cc, name):
     return dict(name=name, cfg=cc.cfg(), nreaders=NREADERS + 3, desc=cc.describe())
 
 
-def stepped(env, digital_rf, cc, ops, name, rng, kill_at=None, every=1):
-    """snapshot + reader passes + listing before every operation; optionally a real SIGKILL at stop `kill_at`"""
+def stepped(env, digital_rf, cc, ops, name, rng, kill_at=None, every=1, restart=None):
+    """snapshot + reader passes + listing before every operation; optionally a real SIGKILL at stop `kill_at`.
+    restart (after a kill): a new recorder process is started on the tree the dead one left behind -
+      "same":  its write falls into the file period that was in progress at the kill, then it is closed
+      "go-on": the same, then it goes on to a later free period before it is closed
+      "later": it starts in a later free period"""
     boxes = {r: [None] for r in range(1, NREADERS + 1)}
     abox = [None]
     abox2 = [None]
@@ -132,10 +136,32 @@ def stepped(env, digital_rf, cc, ops, name, rng, kill_at=None, every=1):
         return "go"
 
     run = fsctl.FsRun(env["stage"], env["shim"], env["verif"], env["root"], cc, ops, policy=policy, observe=observe, name=name).run()
+    killed = run.killed
+    if killed and restart:
+        b = cc.bound
+        snap = [e for e in run.events if e["ev"] == "snap"][-1]
+        tmpj = sorted(j for j in snap["tmp"] if 1 <= j <= cc.nw)
+        finj = sorted(j for j in snap["fin"] if 1 <= j <= cc.nw)
+        top = max(tmpj + finj + [0])
+        ops2 = None
+        if restart in ("same", "go-on") and tmpj:
+            j = tmpj[-1]
+            s2 = b[j - 1] + rng.randint(0, max(0, b[j] - b[j - 1] - 1))
+            ops2 = [["open", s2 + cc.B], ["write", 0, rng.choice([1, 2, max(1, b[j] - s2)])]]
+            if restart == "go-on" and top + 1 <= cc.nw:
+                a = b[top]      # first sample of the first period nobody has touched
+                ops2.append(["write", a - s2, min(3, b[-1] - a)])
+            ops2.append(["close"])
+        elif top + 1 <= cc.nw:
+            a = b[top]
+            ops2 = [["open", a + cc.B], ["write", 0, min(3, b[-1] - a)], ["close"]]
+        if ops2:
+            kill_at = None
+            run.restart(ops2)
     sc = header(cc, name)
     sc["events"] = run.events
     sc["nops"] = run.nops
-    sc["killed"] = run.killed
+    sc["killed"] = killed
     run.cleanup()
     return sc
 
